@@ -127,33 +127,6 @@ proof! {
 	}
 }
 
-/// A `Read` over a byte array that hands out an arbitrary non-empty prefix of what is asked for
-/// on every call: fragmentation in transit becomes a symbolic variable (E8 without the socket).
-pub struct Frag<'a> {
-	pub data: &'a [u8],
-	pub pos: usize,
-	pub calls: usize,
-}
-impl<'a> std::io::Read for Frag<'a> {
-	fn read(&mut self, buf: &mut [u8]) -> std::io::Result<usize> {
-		let left = self.data.len() - self.pos;
-		let max = if buf.len() < left { buf.len() } else { left };
-		if max == 0 {
-			return Ok(0);
-		}
-		let k: usize = nd::any();
-		nd::assume(k >= 1 && k <= max);
-		let mut i = 0;
-		while i < k {
-			buf[i] = self.data[self.pos + i];
-			i += 1;
-		}
-		self.pos += k;
-		self.calls += 1;
-		Ok(k)
-	}
-}
-
 const fn parse_env(s: Option<&str>, default: u64) -> u64 {
 	match s {
 		Some(s) => {
@@ -169,10 +142,48 @@ const fn parse_env(s: Option<&str>, default: u64) -> u64 {
 		None => default,
 	}
 }
+/// A `Read` over a byte array that models fragmentation in transit with CONCRETE cut points
+/// (symbolic cut points make every later buffer index symbolic and symbolic execution does not
+/// finish): one packet boundary at the absolute stream offset `split` (a read that would cross it
+/// comes back short, ending at the boundary), or `one_byte` (every read returns a single byte).
+/// The harnesses enumerate every `split`.
+pub struct Frag<'a> {
+	pub data: &'a [u8],
+	pub pos: usize,
+	pub calls: usize,
+	pub split: usize,
+	pub one_byte: bool,
+}
+impl<'a> std::io::Read for Frag<'a> {
+	fn read(&mut self, buf: &mut [u8]) -> std::io::Result<usize> {
+		let left = self.data.len() - self.pos;
+		let max = if buf.len() < left { buf.len() } else { left };
+		if max == 0 {
+			return Ok(0);
+		}
+		let k = if self.one_byte {
+			1
+		} else if self.pos < self.split && self.pos + max > self.split {
+			self.split - self.pos
+		} else {
+			max
+		};
+		let mut i = 0;
+		while i < k {
+			buf[i] = self.data[self.pos + i];
+			i += 1;
+		}
+		self.pos += k;
+		self.calls += 1;
+		Ok(k)
+	}
+}
+
 const UNK_LEN: usize = parse_env(option_env!("VH_UNKLEN"), 3) as usize;
+const UNK_TYPE: u8 = parse_env(option_env!("VH_UNKTYPE"), 200) as u8;
 
 proof! {
-	[clock] fn message_sequence_under_fragmentation() {
+	[clock, alloc] fn message_sequence_under_fragmentation() {
 		// Ping, then a frame of an UNKNOWN type, then Pong, written by the real writer
 		// (Msg::new + write_message) into one byte stream and read back with read_message over a
 		// reader that fragments the stream arbitrarily: the identical typed messages come out,
@@ -180,13 +191,17 @@ proof! {
 		// exactly the written bytes are consumed
 		use grin_core::pow::Difficulty;
 		use grin_p2p::msg::{Msg, Ping, Pong};
-		let ct = env::any_chain_type();
+		let ct = grin_core::global::ChainTypes::Mainnet;
 		env::set_chain_type(ct);
-		let v = ProtocolVersion(if nd::any::<bool>() { 1 } else { 1000 });
+		let v = ProtocolVersion(1);
 		let d1: u64 = nd::any();
 		let h1: u64 = nd::any();
 		let d2: u64 = nd::any();
 		let h2: u64 = nd::any();
+		// E12: concrete 256-byte blocks, Vec growth in place (the writer serialises into growing
+		// Vec<u8>s); every request is asserted to stay below 4 KiB - no body-sized allocation
+		env::alloc_block(256);
+		env::alloc_limit(4096);
 		let tracker = std::sync::Arc::new(grin_p2p::VerifTracker::new());
 		const N: usize = 27 + 11 + UNK_LEN + 27;
 		let mut wire = [0u8; N];
@@ -203,8 +218,9 @@ proof! {
 			grin_core::global::ChainTypes::Mainnet => [97, 61],
 			_ => [73, 43],
 		};
-		let t: u8 = nd::any();
-		nd::assume(t > 28);
+		// the unknown type byte is concrete per query (a symbolic one makes every header parse of
+		// the split loop fork into all 29 known types)
+		let t: u8 = UNK_TYPE;
 		wire[27] = magic[0];
 		wire[28] = magic[1];
 		wire[29] = t;
@@ -222,26 +238,32 @@ proof! {
 			check!(sink.len() == 0, "a Pong frame is 11 + 16 bytes");
 			core::mem::forget(m2);
 		}
-		let mut src = Frag { data: &wire[..], pos: 0, calls: 0 };
-		let r1 = msg::read_message::<Ping, _>(&mut src, v, Type::Ping);
-		match &r1 {
-			Ok(p) => check!(p.total_difficulty.to_num() == d1 && p.height == h1, "the Ping read is the Ping written"),
-			Err(_) => check!(false, "a written Ping is readable however the stream is fragmented"),
+		// every single packet boundary (s = 1..N-1), no boundary (s = 0) and byte-by-byte (s = N)
+		let mut s = 0;
+		while s <= N {
+			let mut src = Frag { data: &wire[..], pos: 0, calls: 0, split: if s < N { s } else { 0 }, one_byte: s == N };
+			let r1 = msg::read_message::<Ping, _>(&mut src, v, Type::Ping);
+			match &r1 {
+				Ok(p) => check!(p.total_difficulty.to_num() == d1 && p.height == h1, "the Ping read is the Ping written"),
+				Err(_) => check!(false, "a written Ping is readable however the stream is fragmented"),
+			}
+			check!(src.pos == 27, "exactly the Ping frame consumed");
+			let r2 = msg::read_message::<Pong, _>(&mut src, v, Type::Pong);
+			check!(matches!(r2, Err(P2pError::BadMessage)), "a frame of unknown type is reported as a bad message");
+			check!(src.pos == 38 + UNK_LEN, "and its announced body is skipped: the stream stays in step");
+			let r3 = msg::read_message::<Pong, _>(&mut src, v, Type::Pong);
+			match &r3 {
+				Ok(p) => check!(p.total_difficulty.to_num() == d2 && p.height == h2, "the Pong after the unknown frame is the Pong written"),
+				Err(_) => check!(false, "the message after a skipped frame is readable"),
+			}
+			check!(src.pos == N, "the whole stream is consumed, nothing more");
+			cover!(s == 5 && src.calls == 7, "a frame header arrived in two fragments");
+			cover!(s == N && src.calls == N, "byte by byte");
+			core::mem::forget(r1);
+			core::mem::forget(r2);
+			core::mem::forget(r3);
+			s += 1;
 		}
-		check!(src.pos == 27, "exactly the Ping frame consumed");
-		let r2 = msg::read_message::<Pong, _>(&mut src, v, Type::Pong);
-		check!(matches!(r2, Err(P2pError::BadMessage)), "a frame of unknown type is reported as a bad message");
-		check!(src.pos == 38 + UNK_LEN, "and its announced body is skipped: the stream stays in step");
-		let r3 = msg::read_message::<Pong, _>(&mut src, v, Type::Pong);
-		match &r3 {
-			Ok(p) => check!(p.total_difficulty.to_num() == d2 && p.height == h2, "the Pong after the unknown frame is the Pong written"),
-			Err(_) => check!(false, "the message after a skipped frame is readable"),
-		}
-		check!(src.pos == N, "the whole stream is consumed, nothing more");
-		cover!(src.calls > 6, "some read was fragmented");
-		core::mem::forget(r1);
-		core::mem::forget(r2);
-		core::mem::forget(r3);
 		core::mem::forget(tracker);
 	}
 }
@@ -261,38 +283,47 @@ proof! {
 			b[i] = 0;
 			i += 1;
 		}
-		let mut src = Frag { data: &b[..], pos: 0, calls: 0 };
-		let r = msg::read_message::<msg::Ping, _>(&mut src, ProtocolVersion(1), Type::Ping);
-		let magic: [u8; 2] = match ct {
-			grin_core::global::ChainTypes::Testnet => [83, 59],
-			grin_core::global::ChainTypes::Mainnet => [97, 61],
-			_ => [73, 43],
-		};
-		let len = u64::from_be_bytes([b[3], b[4], b[5], b[6], b[7], b[8], b[9], b[10]]);
-		if b[0] != magic[0] || b[1] != magic[1] {
-			check!(r.is_err() && src.pos == 11, "wrong magic: refused after the 11 header bytes");
-		} else if b[2] != 3 && b[2] <= 28 && r.is_err() && len == 0 {
-			check!(matches!(r, Err(P2pError::BadMessage)) && src.pos == 11, "another known type: bad message, only the header consumed");
-			cover!(true, "frame of another known type");
-		} else if b[2] == 3 && len == 0 {
-			check!(r.is_err() && src.pos == 11, "a Ping frame announcing an empty body is refused without reading on");
-			cover!(true, "ping with empty body");
-		} else if b[2] > 28 {
-			check!(matches!(r, Err(P2pError::BadMessage)) && src.pos == 11, "an unknown type with an empty body: bad message, only the header consumed");
-			cover!(true, "unknown type");
+		// unfragmented, one boundary inside the header (offset 5), byte-by-byte
+		const MODES: [usize; 3] = [0, 5, 11];
+		let mut mi = 0;
+		while mi < 3 {
+			let sp = MODES[mi];
+			mi += 1;
+			let mut src = Frag { data: &b[..], pos: 0, calls: 0, split: if sp < 11 { sp } else { 0 }, one_byte: sp == 11 };
+			let r = msg::read_message::<msg::Ping, _>(&mut src, ProtocolVersion(1), Type::Ping);
+			let magic: [u8; 2] = match ct {
+				grin_core::global::ChainTypes::Testnet => [83, 59],
+				grin_core::global::ChainTypes::Mainnet => [97, 61],
+				_ => [73, 43],
+			};
+			let len = u64::from_be_bytes([b[3], b[4], b[5], b[6], b[7], b[8], b[9], b[10]]);
+			if b[0] != magic[0] || b[1] != magic[1] {
+				check!(r.is_err() && src.pos == 11, "wrong magic: refused after the 11 header bytes");
+			} else if b[2] != 3 && b[2] <= 28 && len == 0 {
+				check!(matches!(r, Err(P2pError::BadMessage)) && src.pos == 11, "another known type: bad message, only the header consumed");
+				cover!(true, "frame of another known type");
+			} else if b[2] == 3 && len == 0 {
+				check!(r.is_err() && src.pos == 11, "a Ping frame announcing an empty body is refused without reading on");
+				cover!(true, "ping with empty body");
+			} else if b[2] > 28 {
+				check!(matches!(r, Err(P2pError::BadMessage)) && src.pos == 11, "an unknown type with an empty body: bad message, only the header consumed");
+				cover!(true, "unknown type");
+			}
+			core::mem::forget(r);
 		}
-		core::mem::forget(r);
 	}
 }
 
 /// E8: the socket behind the codec. `TcpStream::read` hands out an arbitrary non-empty prefix of
 /// what is asked for from a harness byte array; timeouts are no-ops (outside the claim).
 pub mod sock {
-	use crate::nd;
 	pub static mut DATA: [u8; 72] = [0u8; 72];
 	pub static mut LEN: usize = 0;
 	pub static mut POS: usize = 0;
 	pub static mut CALLS: usize = 0;
+	/// concrete packet boundary (absolute offset; 0 = none) / byte-by-byte mode, as in `Frag`
+	pub static mut SPLIT: usize = 0;
+	pub static mut ONE_BYTE: bool = false;
 	pub fn read(_s: &mut std::net::TcpStream, buf: &mut [u8]) -> std::io::Result<usize> {
 		unsafe {
 			let left = LEN - POS;
@@ -300,8 +331,13 @@ pub mod sock {
 			if max == 0 {
 				return Ok(0);
 			}
-			let k: usize = nd::any();
-			nd::assume(k >= 1 && k <= max);
+			let k = if ONE_BYTE {
+				1
+			} else if POS < SPLIT && POS + max > SPLIT {
+				SPLIT - POS
+			} else {
+				max
+			};
 			let mut i = 0;
 			while i < k {
 				buf[i] = DATA[POS + i];
@@ -368,35 +404,122 @@ proof! {
 				}
 				sock::LEN = 67;
 			}
-			let stream = unsafe { std::net::TcpStream::from_raw_fd(3) };
-			let mut codec = grin_p2p::VerifCodec::new(ProtocolVersion(1), stream);
-			let (m1, n1) = codec.read();
-			match &m1 {
-				Ok(Message::Ping(p)) => check!(p.total_difficulty.to_num() == d1 && p.height == h1, "codec: the Ping read is the Ping written"),
-				_ => check!(false, "codec: a Ping frame is decoded as a Ping however it is fragmented"),
+			const SPLITS: [usize; 8] = [0, 1, 5, 11, 20, 30, 39, 45];
+			let mut si = 0;
+			while si <= SPLITS.len() {
+				unsafe {
+					sock::POS = 0;
+					sock::CALLS = 0;
+					sock::ONE_BYTE = si == SPLITS.len();
+					sock::SPLIT = if si < SPLITS.len() { SPLITS[si] } else { 0 };
+				}
+				let stream = unsafe { std::net::TcpStream::from_raw_fd(3) };
+				let mut codec = grin_p2p::VerifCodec::new(ProtocolVersion(1), stream);
+				let (m1, n1) = codec.read();
+				match &m1 {
+					Ok(Message::Ping(p)) => check!(p.total_difficulty.to_num() == d1 && p.height == h1, "codec: the Ping read is the Ping written"),
+					_ => check!(false, "codec: a Ping frame is decoded as a Ping however it is fragmented"),
+				}
+				check!(n1 == 27, "codec reports the bytes of the frame");
+				let (m2, n2) = codec.read();
+				check!(matches!(m2, Ok(Message::Unknown(x)) if x == t), "codec: an unknown type is reported and its body skipped");
+				check!(n2 == 13 && unsafe { sock::POS } == 40, "codec: exactly the unknown frame is consumed: the stream stays in step");
+				let (m3, n3) = codec.read();
+				match &m3 {
+					Ok(Message::Pong(p)) => check!(p.total_difficulty.to_num() == d2 && p.height == h2, "codec: the Pong after the unknown frame is the Pong written"),
+					_ => check!(false, "codec: the message after a skipped frame is decoded"),
+				}
+				check!(n3 == 27 && unsafe { sock::POS } == 67, "codec: the whole stream is consumed, nothing more");
+				cover!(si == 2 && unsafe { sock::CALLS } == 7, "a frame header arrived in two fragments");
+				core::mem::forget(m1);
+				core::mem::forget(m2);
+				core::mem::forget(m3);
+				core::mem::forget(codec);
+				si += 1;
 			}
-			check!(n1 == 27, "codec reports the bytes of the frame");
-			let (m2, n2) = codec.read();
-			check!(matches!(m2, Ok(Message::Unknown(x)) if x == t), "codec: an unknown type is reported and its body skipped");
-			check!(n2 == 13 && unsafe { sock::POS } == 40, "codec: exactly the unknown frame is consumed: the stream stays in step");
-			let (m3, n3) = codec.read();
-			match &m3 {
-				Ok(Message::Pong(p)) => check!(p.total_difficulty.to_num() == d2 && p.height == h2, "codec: the Pong after the unknown frame is the Pong written"),
-				_ => check!(false, "codec: the message after a skipped frame is decoded"),
-			}
-			check!(n3 == 27 && unsafe { sock::POS } == 67, "codec: the whole stream is consumed, nothing more");
-			cover!(unsafe { sock::CALLS } > 6, "some read was fragmented");
-			core::mem::forget(m1);
-			core::mem::forget(m2);
-			core::mem::forget(m3);
-			core::mem::forget(codec);
 		}
+	}
+}
+
+proof! {
+	[clock, alloc] fn writer_frames_messages() {
+		// the sending side: two messages written one after the other through the real writer
+		// (Msg::new + write_message, one connection tracker) form exactly two frames on the wire -
+		// this network's magic, the type byte, the body length as big-endian u64 (what the
+		// reader's header parser, decided by frame_header_*, accepts), then the body bytes in
+		// field order - nothing before, between or after them
+		use grin_core::pow::Difficulty;
+		use grin_p2p::msg::{BanReason, Msg, Ping};
+		let ct = env::any_chain_type();
+		env::set_chain_type(ct);
+		let v = ProtocolVersion(1);
+		let d1: u64 = nd::any();
+		let h1: u64 = nd::any();
+		nd::assume(d1 >= 1); // Difficulty::from_num lifts 0 to the minimum 1
+		env::alloc_block(256);
+		env::alloc_limit(4096);
+		let tracker = std::sync::Arc::new(grin_p2p::VerifTracker::new());
+		let mut wire = [0xAAu8; 27 + 15 + 2];
+		// (each frame gets its own sink: after a first write into a shared sink the position of
+		// the second is not a syntactic constant any more and every later index turns symbolic)
+		let left1 = {
+			let mut sink: &mut [u8] = &mut wire[0..28];
+			let m1 = Msg::new(Type::Ping, Ping { total_difficulty: Difficulty::from_num(d1), height: h1 }, v).expect("ping serialises");
+			msg::write_message(&mut sink, &m1, tracker.clone()).expect("ping written");
+			core::mem::forget(m1);
+			sink.len()
+		};
+		check!(left1 == 1, "a Ping frame is exactly 11 + 16 bytes");
+		wire[27] = 0xAA;
+		let left = {
+			let mut sink: &mut [u8] = &mut wire[27..44];
+			let m2 = Msg::new(Type::BanReason, BanReason { ban_reason: grin_p2p::ReasonForBan::BadBlock }, v).expect("ban reason serialises");
+			msg::write_message(&mut sink, &m2, tracker.clone()).expect("ban reason written");
+			core::mem::forget(m2);
+			sink.len()
+		};
+		check!(left == 2, "a BanReason frame is exactly 11 + 4 bytes");
+		let magic: [u8; 2] = match ct {
+			grin_core::global::ChainTypes::Testnet => [83, 59],
+			grin_core::global::ChainTypes::Mainnet => [97, 61],
+			_ => [73, 43],
+		};
+		// expected image of the wire, compared byte by byte at a symbolic index
+		let mut expect = [0xAAu8; 44];
+		expect[0] = magic[0];
+		expect[1] = magic[1];
+		expect[2] = 3;
+		expect[10] = 16;
+		let (db, hb) = (d1.to_be_bytes(), h1.to_be_bytes());
+		let mut i = 0;
+		while i < 8 {
+			expect[3 + i] = if i == 7 { 16 } else { 0 };
+			expect[11 + i] = db[i];
+			expect[19 + i] = hb[i];
+			expect[30 + i] = if i == 7 { 4 } else { 0 };
+			i += 1;
+		}
+		expect[27] = magic[0];
+		expect[28] = magic[1];
+		expect[29] = 18;
+		expect[38] = 0;
+		expect[39] = 0;
+		expect[40] = 0;
+		expect[41] = 1;
+		// (compared at concrete indices: a symbolic index into the memcpy'd wire image exhausts memory)
+		let mut k = 0;
+		while k < 44 {
+			check!(wire[k] == expect[k], "the wire holds exactly: magic, type 3, length 16, difficulty, height; magic, type 18, length 4, reason; nothing else");
+			k += 1;
+		}
+		core::mem::forget(tracker);
 	}
 }
 
 pub const HARNESSES: &[(&str, fn())] = &[
 	("c19::frame_header_writer_matches_reader", frame_header_writer_matches_reader),
 	("c19::frame_header_limits", frame_header_limits),
+	("c19::writer_frames_messages", writer_frames_messages),
 	("c19::codec_ping_then_unknown_then_pong", codec_ping_then_unknown_then_pong),
 	("c19::message_sequence_under_fragmentation", message_sequence_under_fragmentation),
 	("c19::read_message_type_mismatch_keeps_stream", read_message_type_mismatch_keeps_stream),
